@@ -29,12 +29,23 @@ RULE = ("(a) animations built through KeyframeAnimation::SetTimestamps / AddKeyf
         "mismatches, 0 components, component counts 128..300 run on the real class and on the Lean model "
         "(DracoModel/Animation.lean): results of every call and the final attribute list must agree; oracle: every id "
         "returned by AddKeyframes indexes a track with exactly the data passed in, timestamps sit under id 0.")
-THEOREM_BACKED = ("track_id_stable, track_ids_distinct, timestamps_id_zero, set_timestamps_twice_fails, "
-                  "frame_count_mismatch_fails, num_frames_consistent (API state machine); decoded_frames_in_stream_order, "
-                  "att_descs_roundtrip, track_retrievable_after_roundtrip_partial (sequential decoder model)")
-CORRESPONDENCE_ONLY = "the attribute value coders (entropy coding, prediction, quantization) are tied by correspondence and by C04/C08/C16"
-EXPLANATION = ("the theorems cover the id bookkeeping of the API and the order preservation of the sequential decoder model; "
-               "value-level exactness is checked by the oracle and the executable specification on every generated animation")
+THEOREM_BACKED = ('animation_roundtrip / animation_track_retrievable / animation_quantized_track (API state machine '
+                  "composed with C01's sequential codec theorems: for every codable, plain call sequence with >= 1 frame "
+                  "and timestamps set, decoding the encoder model's stream + arbitrary trailing bytes returns the frames in"
+                  ' order, every track under the id AddKeyframes returned, unquantized data bit-exact, quantized tracks = '
+                  'dequant(quant(row))); track_id_stable, track_ids_distinct, timestamps_id_zero, '
+                  'set_timestamps_twice_fails, frame_count_mismatch_fails, num_frames_consistent (API state machine); '
+                  'decoded_frames_in_stream_order(_legacy/_v), att_descs_roundtrip, '
+                  'track_retrievable_after_roundtrip(_v)_partial (sequential decoder model); witnesses '
+                  'num_components_narrowed_witness, frame_product_wraps_witness')
+CORRESPONDENCE_ONLY = ('animations with deleted tracks (PointCloud::DeleteAttribute), without frames or timestamps, or with >= '
+                       '256 components are outside the composed theorem and covered by correspondence + oracle only; the '
+                       "half-step bound of quantized tracks is C04's (abstract rounding model, evaluated in exact rationals "
+                       'here)')
+EXPLANATION = ('the composed theorem is about the model pair (sequential point-cloud encoder model tied byte-exactly by '
+               "C01's seqenc cases, decoder model tied token for token here); value-level exactness is additionally "
+               'checked by the oracle and the executable specification on every generated animation of the real encoder '
+               '/ decoder')
 ASSUMPTIONS = ["IEEE-754 binary32 round-to-nearest for + - * / and int->float; no FMA contraction (g++ x86-64 SSE)"]
 TIMEOUT = 900
 U = Fraction(1, 2 ** 24)
